@@ -175,11 +175,11 @@ def set_limits(rng, spec, meta, x0):
 
 
 def sim_settings(rng, base, mode, *, big_tau=False, steps=None):
-    """horizon / tau / epsilon / numpy seed for one run of a generated model"""
+    """horizon / tau / epsilon / numpy seed for one run of a generated model (`steps`: choices of expected event counts)"""
     tot = max(base["tot0"], 1e-3)
-    steps = steps or rng.choice([20, 40, 80, 150])
+    steps = rng.choice(list(steps or [20, 40, 80, 150]))
     t0 = rng.choice([0.0, 0.0, 1.0, 2.5])
-    T = t0 + min(20.0, steps / tot)
+    T = t0 + min(20.0 * max(1.0, steps / 150.0), steps / tot)
     s = {"mode": mode, "t0": t0, "T": float(T), "np_seed": rng.randrange(2 ** 31), "epsilon": None, "pre_tau": None}
     if mode == "tau_fixed":
         mean_events = rng.choice([2, 5, 10]) if big_tau else rng.choice([0.3, 1, 2])
@@ -510,6 +510,9 @@ def oracle_c04(model, case, X, J, T, exact, finalT, truncated, its, lims, evalua
     if len(T) != len(X) or (len(T) - 1 != len(J)):
         v("array lengths disagree", "shape", "len(X)=%d len(T)=%d len(J)=%d" % (len(X), len(T), len(J)))
         return
+    if not np.all(np.isfinite(T)) or not np.all(np.isfinite(X)):
+        v("non-finite time or state recorded", "nonfinite", "T tail %s" % T[-3:].tolist())
+        return
     if len(T) > 1 and not np.all(np.diff(T) > 0):
         k = int(np.argmax(~(np.diff(T) > 0)))
         v("times are not strictly increasing", "times", "T[%d]=%r T[%d]=%r" % (k, T[k], k + 1, T[k + 1]))
@@ -523,8 +526,14 @@ def oracle_c04(model, case, X, J, T, exact, finalT, truncated, its, lims, evalua
             v("exact step does not report exactly one event", "one-event", "J[%d]=%s" % (k, Jf[k].tolist()))
         vmat, pure = evaluators["vMat"], evaluators["pureOdeVector"]
         nS, nE = X.shape[1], Jf.shape[1]
+        rates_fn = evaluators["eventRateVector"]
         for k in range(len(Jf)):
             V = np.asarray(vmat(X[k], T[k]), float).reshape(nS, nE)
+            rk = np.asarray(rates_fn(X[k], T[k]), float).ravel()
+            if np.any((Jf[k] > 0) & ~(rk > 0)):
+                j = int(np.argmax((Jf[k] > 0) & ~(rk > 0)))
+                v("an event that cannot fire (rate <= 0) was fired", "zero-rate-event-fired", "step %d: x=%s rates=%s counts=%s (event %d)" % (k, X[k].tolist(), rk.tolist(), Jf[k].tolist(), j))
+                break
             exp = X[k] + V.dot(Jf[k])
             retried = (not exact) and k < len(its) and its[k].get("retry")   # a first-reaction step: no ODE term
             if not exact and case.get("has_ode") and not retried:
@@ -535,6 +544,12 @@ def oracle_c04(model, case, X, J, T, exact, finalT, truncated, its, lims, evalua
             if not ok:
                 v("state change != vMat . counts", "increment", "step %d: x=%s -> %s, counts=%s, V.counts=%s" % (k, X[k].tolist(), X[k + 1].tolist(), Jf[k].tolist(), V.dot(Jf[k]).tolist()))
                 break
+    # the loop must not go on after a stop condition: an iteration that found every rate zero is the last one
+    for k, it in enumerate(its[:-1]):
+        if it.get("complete") and np.all(np.ravel(it["rates"]) == 0):
+            v("the loop went on after an iteration in which no event could fire", "continued-after-stop",
+              "iteration %d of %d at x=%s t=%r had all rates zero" % (k, len(its), np.asarray(it["x"]).tolist(), it["t"]))
+            break
     # exit: horizon passed, or no event can fire, or (by design of _jump) a first-reaction proposal left the limits
     if not truncated and not (T[-1] >= finalT):
         rates = np.asarray(evaluators["eventRateVector"](X[-1], T[-1]), float).ravel()
